@@ -15,20 +15,30 @@ Inductive ckind :=
 Record case := { c_pre : state; c_kind : ckind; c_post : state }.
 
 Definition mk (d : list (list N * node)) (m : list (list N * parsed)) (c : list ((list N * N) * list N))
-              (f : option (list (list N))) (w : list (list N * wstate)) (c0 : config) : state :=
-  State (list_to_map d) (list_to_map m) (list_to_map c) (list_to_set <$> f) (list_to_map w) c0.
+              (f : option (list (list N))) (w : list (list N * option (N * N))) (c0 : config) (t : N) : state :=
+  State (list_to_map d) (list_to_map m) (list_to_map c) (list_to_set <$> f) (list_to_map w) c0 t.
 Definition pkg (ch : option (list (list N))) : parsed := PPkg (list_to_set <$> ch).
 Definition afiles (l : list (list N)) : answer := AFiles (list_to_set l).
 Definition achildren (l : option (list (list N))) : answer := AChildren (list_to_set <$> l).
 
 (* 0 agree; 1 tree; 2 module cache; 3 concluded cells; 4 file list; 5 watched resources; 6 answer;
    7 the tree changed during read-only activity *)
+(* Modification times are abstracted by the harness to their ranks, and the model draws new ones from its
+   clock: the tree is compared up to modification times, the watched set up to "stored indicator is None /
+   equals the current (mtime, size) / differs from it". *)
+Definition dview (s : state) : gmap (list N) (option content) := kind_of <$> dsk s.
+Definition wview (s : state) : gmap (list N) N :=
+  map_imap (fun r w => Some (match w with
+                             | None => 0%N
+                             | Some i => if bool_decide (stampw s r = Some i) then 1%N else 2%N
+                             end)) (watched s).
+
 Definition state_diff (a b : state) : N :=
-  if negb (bool_decide (dsk a = dsk b)) then 1%N
+  if negb (bool_decide (dview a = dview b)) then 1%N
   else if negb (bool_decide (mods a = mods b)) then 2%N
   else if negb (bool_decide (cells a = cells b)) then 3%N
   else if negb (bool_decide (flist a = flist b)) then 4%N
-  else if negb (bool_decide (watched a = watched b)) then 5%N
+  else if negb (bool_decide (wview a = wview b)) then 5%N
   else 0%N.
 
 Definition run_case (c : case) : N :=
@@ -39,7 +49,7 @@ Definition run_case (c : case) : N :=
       if negb (N.eqb d 0) then d
       else match ans with Some a' => if bool_decide (a = a') then 0%N else 6%N | None => 0%N end
   | KStep o _ => state_diff (step (c_pre c) o) (c_post c)
-  | KFree => if bool_decide (dsk (c_pre c) = dsk (c_post c)) then 0%N else 7%N
+  | KFree => if bool_decide (dview (c_pre c) = dview (c_post c)) then 0%N else 7%N
   end.
 
 Definition b2n (b : bool) (k : N) : N := if b then k else 0%N.
@@ -47,18 +57,21 @@ Definition b2n (b : bool) (k : N) : N := if b then k else 0%N.
 (* bit 1: CacheCoherent pre; 2: Coherent pre; 4: CacheCoherent post; 8: Coherent post;
    16: the step is inside the domain of C13_coherent_inv_partial (resolution_unaffected);
    32: (query steps) the model's warm answer equals the model's fresh answer;
-   64: the step makes rope raise ([raises], the recorded folder-move defect) *)
+   64: the step makes rope raise ([raises], the recorded folder-move defect);
+   128: [ext_ok]: a batch behind rope's back is confined to the validated folder and visible in the
+        (mtime, size) indicators *)
 Definition flags (c : case) : N :=
   (b2n (bool_decide (CacheCoherent (c_pre c))) 1 + b2n (bool_decide (Coherent (c_pre c))) 2
    + b2n (bool_decide (CacheCoherent (c_post c))) 4 + b2n (bool_decide (Coherent (c_post c))) 8
    + match c_kind c with
      | KStep o _ =>
          b2n (bool_decide (resolution_unaffected (c_pre c) o)) 16 + b2n (raises (c_pre c) o) 64
+         + b2n (bool_decide (ext_ok (c_pre c) o)) 128
          + match o with
            | OQuery q => b2n (bool_decide ((run_query (c_pre c) q).2 = (run_query (fresh (c_pre c)) q).2)) 32
            | _ => 0
            end
-     | KFree => 16
+     | KFree => 16 + 128
      end)%N.
 
 Fixpoint mismatches_from (i : N) (cs : list case) : list (N * N) :=
@@ -70,3 +83,4 @@ Fixpoint mismatches_from (i : N) (cs : list case) : list (N * N) :=
   end.
 Definition mismatches (cs : list case) : list (N * N) := mismatches_from 0 cs.
 Definition all_flags (cs : list case) : list N := map flags cs.
+Require RopeVerif.C13.AIRunner.
